@@ -1,5 +1,6 @@
 import HdVerif.Model.FrameAccess
 import HdVerif.Generated.T1c
+import HdVerif.Generated.T11f
 /-! C05: the OTHER ways of fetching stored frames, and histories on one object.
 
 `Model/FrameAccess.lean` composes `get_stored_frame` / `get_stored_frames`.  Stored frames are also read by the frame
@@ -156,5 +157,64 @@ def step (one : List Nat → Int → Bool → Except ErrKind α) (all : List Nat
 
 def run (one : List Nat → Int → Bool → Except ErrKind α) (all : List Nat → Except ErrKind (List α)) (n : Int)
     (s : Img α) (ops : List Op) : Img α := ops.foldl (step one all n) s
+
+/-! ### what may be handed in as a frame number
+
+The guards compare integers; what reaches them is decided by the conversion the source applies first (regenerated name:
+`frameNumberConversion`, `readerIndexConversion`).  `operator.index` accepts exactly the objects with `__index__`: Python
+ints (bool is a subclass of int: True is 1) and numpy integer scalars of every width; it refuses floats (integral or not),
+strings, None and numpy booleans.  `int(...)` would also accept floats (truncating) and numeric strings. -/
+
+inductive PyVal
+  | int (k : Int)
+  | npInt (bits : Nat) (signed : Bool) (k : Int)
+  | bool (b : Bool)
+  | npBool (b : Bool)
+  | float (v : Rat)
+  | str (s : String) (parsed : Option Int)     -- `parsed`: what `int(s)` would return
+  | none
+  deriving Repr
+
+/-- `operator.index` -/
+def opIndex : PyVal → Except ErrKind Int
+  | .int k => .ok k
+  | .npInt _ _ k => .ok k
+  | .bool b => .ok (if b then 1 else 0)
+  | _ => .error .type
+
+/-- `int(...)` (truncation towards zero; numeric strings parsed) - NOT what the source uses -/
+def pyIntOf : PyVal → Except ErrKind Int
+  | .int k => .ok k
+  | .npInt _ _ k => .ok k
+  | .bool b => .ok (if b then 1 else 0)
+  | .npBool b => .ok (if b then 1 else 0)
+  | .float v => .ok (if v < 0 then Rat.ceil v else Rat.floor v)
+  | .str _ (some k) => .ok k
+  | .str _ .none => .error .value
+  | .none => .error .type
+
+/-- the conversion named `name` applied to a value; an unknown conversion is refused (the model does not know it), no
+    conversion at all lets only ints through to the comparisons (anything else raises TypeError in `<`, or worse, slips) -/
+def convertBy (name : String) (v : PyVal) : Except ErrKind Int :=
+  if name = "operator.index" then opIndex v
+  else if name = "int" then pyIntOf v
+  else .error .other
+
+/-- `_standardize_frame_index` on a Python VALUE -/
+def stdFrameIndexV (v : PyVal) (asIndex : Bool) (n : Int) : Except ErrKind Int := do
+  let k ← convertBy frameNumberConversion v
+  stdFrameIndex k asIndex n
+
+/-- the reader's guard on a Python value -/
+def lazyIndexGuardV (v : PyVal) (n : Int) : Except ErrKind Int := do
+  let k ← convertBy (readerIndexConversion.headD "none") v
+  lazyIndexGuard k n
+
+/-- the integer a value denotes, if it is an integer object -/
+def PyVal.asInteger : PyVal → Option Int
+  | .int k => some k
+  | .npInt _ _ k => some k
+  | .bool b => some (if b then 1 else 0)
+  | _ => Option.none
 
 end HdVerif.FramePaths
